@@ -44,6 +44,11 @@ def _key(t) -> str:
     return repr(t)
 
 
+def _is_sequence(t) -> bool:
+    """Sequence-valued terms: `+` on them is concatenation (order matters)."""
+    return t[0] in ("tuple", "list", "lc", "fstr", "star") or (t[0] == "c" and isinstance(t[1], (str, bytes)))
+
+
 def mk_op(o: str, *args: Term) -> Term:
     if o in ASSOCIATIVE:
         flat: list[Term] = []
@@ -53,7 +58,7 @@ def mk_op(o: str, *args: Term) -> Term:
             else:
                 flat.append(a)
         args = tuple(flat)
-    if o in COMMUTATIVE:
+    if o in COMMUTATIVE and not (o in ("+", "*") and any(_is_sequence(a) for a in args)):
         args = tuple(sorted(args, key=_key))
     if o == ">":
         return ("op", "<", args[1], args[0])
